@@ -29,6 +29,7 @@ var reported = []string{
 	"capture", "capture-bytes", "exc-capture", "exc-reason", "tmp", "with", "defer", "deferred-run", "restore",
 	"order", "order-reverse", "keys", "take", "drop", "count", "assoc", "dissoc", "conj", "has-key", "range", "range-step",
 	"uncomparable-error", "keep-if", "compact", "arith", "num-compare", "eq",
+	"index-on-empty", "index-on-empty-list", "index-on-empty-string", "index-on-empty-map", "compound-with-index", "string-index", "map-index",
 }
 
 func nontrivial(kinds map[string]int) bool {
@@ -312,6 +313,7 @@ func Spec() *mon.Spec {
 			"stream:conj:nil-first": 150, "stream:conj:empty": 35, "stream:assoc:nil-first": 150, "stream:assoc:empty": 30,
 			"stream:has-key:nil-first": 150, "stream:has-key:empty": 35, "stream:has-value:nil-first": 150, "stream:has-value:empty": 35,
 			"stream:keys:empty-map": 10, "stream:has-key:empty-map": 10, "stream:dissoc:empty-map": 10, "stream:assoc:empty-map": 10,
+			"p_index-on-empty-list": 300, "p_index-on-empty-string": 300, "p_index-on-empty-map": 300, "p_compound-with-index": 700,
 			"exc_fail": 250, "exc_flow": 200, "exc_arity": 600, "exc_range": 1000, "exc_type": 900, "exc_nokey": 200, "exc_div0": 80, "exc_unknown-option": 100,
 		},
 	}
